@@ -1,6 +1,7 @@
 import Driver.Stream
 import Obao.Model.Barrier
 import Obao.Model.BarrierAllow
+import Obao.Model.RawAccess
 /-! Line protocol of stream `barrier` (property C01). Keys are hex-encoded UTF-8, values hex (`-` = empty).
 
     init · put|txput|encput k v · dec k · get|txget k · delete|txdelete k · rotate · setver n · scan
@@ -108,8 +109,19 @@ def allowLine (fs : List String) : String :=
   | [f, fn, m] => Obao.BarrierAllow.classifyStr (f, fn, m)
   | _ => "bad-op"
 
+/-- stream `barriercanary`: the request-kind table, plus `raw verb keyhex knownuuids` (sys/raw through
+`storageByPath`; `knownuuids` = comma-separated hex UUIDs of the live child namespaces, `-` for none) -/
+def canaryLine (fs : List String) : String :=
+  match fs with
+  | ["raw", verb, k, known] =>
+    let ks := if known = "-" then some [] else (known.splitOn ",").mapM parseHexStr?
+    match parseHexStr? k, ks with
+    | some k, some ks => Obao.RawAccess.observe (ks.map (·.toList)) verb k.toList
+    | _, _ => "bad-op"
+  | _ => Obao.BarrierAllow.canaryVerdict fs
+
 def streams : List (String × Driver.Stream) :=
   [("barrier", { σ := St, init := Obao.Barrier.init, step := stepLine }),
    ("barrierallow", .stateless allowLine),
-   ("barriercanary", .stateless Obao.BarrierAllow.canaryVerdict)]
+   ("barriercanary", .stateless canaryLine)]
 end Driver.Barrier
